@@ -46,6 +46,22 @@ if metas:
         note = " (see note in meta.json)" if m.get("note") else ""
         out.append("| `%s` | %s | %s%s | %s |" % (m["id"], m["needs_to_manifest"][:160].replace("|", "/").replace("\n", " "), ", ".join(m["detected_by"]) or "**none**", note, mm.group(1) if mm else ""))
     out.append("")
+# ---- independent behaviour-preserving variants
+vmetas = [json.load(open(f)) for f in sorted(glob.glob(os.path.join(V, "variants", "*", "meta.json")))]
+if vmetas:
+    good = [m for m in vmetas if m["confirmed_here"]["existing_tests_pass_with_patch"] and m["confirmed_here"]["demo_passes_with_patch"]]
+    own = [m for m in good if m["alarm_of_own_property"]]
+    other = [m for m in good if m["alarms"] and not m["alarm_of_own_property"]]
+    triage = {}
+    tp = os.path.join(V, "variants", "triage.json")
+    if os.path.exists(tp):
+        triage = json.load(open(tp))
+    out.append("**Independent behaviour-preserving variants** (`/verif/variants/`, written by sub-agents asked to change the implementation substantially while keeping ONE named property true): %d kept; alarms of the check of the property the variant was written to keep: **%d**; variants on which some *other* check reports a violation: %d (each triaged below: the other property is genuinely broken by the variant as that property is worded).\n" % (len(good), len(own), len(other)))
+    out.append("| id | what changed | alarms | triage |")
+    out.append("|---|---|---|---|")
+    for m in good:
+        out.append("| `%s` | %s | %s | %s |" % (m["id"], m["summary"][:170].replace("|", "/").replace("\n", " "), ", ".join(m["alarms"]) or "none", triage.get(m["id"], "")))
+    out.append("")
 # ---- evidence summary
 out.append("**Last recorded runs of the checks on the repaired tree** (from `/verif/evidence/*.json`):\n")
 out.append("| property | tier | seed | runs | distinct non-trivial | sim steps | wall s | violations |")
